@@ -1742,6 +1742,20 @@ func knownNonNil(t *Term) bool {
 
 var freshMemo = map[*ssa.Function]int{}
 
+// FreshObject reports whether v is an object nobody else can hold yet: a local allocation, or the result of a module
+// constructor every return of which yields a new allocation.
+func FreshObject(v ssa.Value) bool {
+	switch x := v.(type) {
+	case *ssa.Alloc:
+		return true
+	case *ssa.Call:
+		if f := x.Common().StaticCallee(); f != nil && curProg != nil && curProg.InRepo(f) && returnsFresh(f, 0) {
+			return true
+		}
+	}
+	return false
+}
+
 // returnsFresh: a single-result function every return of which yields a new allocation (a constructor such as
 // cli.NewExitError): its result is never nil.
 func returnsFresh(f *ssa.Function, depth int) bool {
